@@ -4,5 +4,6 @@ pub mod core;
 pub mod bfs;
 pub mod model;
 pub mod fl;
+pub mod sp;
 pub use crate::core::*;
 pub use crate::rat::*;
